@@ -118,6 +118,30 @@ func (e *Env) seedCorpus(emit func(seedCase)) {
 			em("legal winner thank year wave sausage worth useful legal winner thank yellow", o[0], "normal-form-"+f+"-passphrase")
 		}
 	}
+	// every code point that decomposes and every combining mark, each exactly once
+	// (16 per string, separated by a starter), as mnemonic and as passphrase; in the
+	// thorough tier every assigned code point
+	sweep := append(append([]rune(nil), g.decomp...), g.marks...)
+	if e.Thorough() {
+		sweep = g.AllAssigned()
+	}
+	for _, s := range g.Packed(sweep, 16, 'x') {
+		emit(seedCase{m: s, p: "pw", class: "code-point-sweep-mnemonic"})
+		emit(seedCase{m: "m", p: s, class: "code-point-sweep-passphrase"})
+	}
+	// every byte length 0..300 for either argument (ASCII, so the length is exact)
+	for n := 0; n <= 300; n++ {
+		emit(seedCase{m: strings.Repeat("z", n), p: "q", class: "every-length-mnemonic"})
+		emit(seedCase{m: "z", p: strings.Repeat("q", n), class: "every-length-passphrase"})
+	}
+	// ASCII prefix / suffix of every length around a character that NFKD changes
+	for k := 0; k <= 40; k++ {
+		c := string(g.pick(r, g.decomp))
+		pre, suf := strings.Repeat("a", k), strings.Repeat("b", r.Intn(20))
+		em(pre+c+suf, "ascii-only", "ascii-prefix-then-compat-mnemonic")
+		em("ascii only words", pre+c+suf, "ascii-prefix-then-compat-passphrase")
+		em(pre+c, pre+c, "ascii-prefix-then-compat-both")
+	}
 	// compatibility characters, reordering marks, leading marks, Hangul, random
 	n := e.pick(600, 20000)
 	for k := 0; k < n; k++ {
@@ -212,6 +236,9 @@ func checkC04(e *Env) {
 				return
 			case r.Out1b != r.Out:
 				e.Violate(&Violation{What: "a previously returned seed changed after the caller overwrote a later result: the returned slice is not fresh", Ops: []plan.Op{it.Op}, Observed: r})
+				return
+			case r.Out3 != r.Out:
+				e.Violate(&Violation{What: fmt.Sprintf("after the caller overwrote a returned seed, the next call with the same arguments returned %s instead of %s: results are served from memory the caller can reach", r.Out3, r.Out), Ops: []plan.Op{it.Op}, Observed: r})
 				return
 			case r.Alias:
 				e.Violate(&Violation{What: "two returned seeds share memory: the returned slice is not fresh", Ops: []plan.Op{it.Op}, Observed: r})
